@@ -73,6 +73,7 @@ fn reference_of(sc: &ConnScenario) -> ConnScenario {
     let mut r = sc.clone();
     r.client.cuts.clear();
     r.wplan.clear();
+    r.client.coalesce = false;
     r
 }
 
@@ -227,6 +228,7 @@ fn generate(rng: &mut Rng, index: u64) -> C08Sc {
         return C08Sc { sc };
     }
     let mode = index % 4;
+    sc.client.coalesce = rng.chance(1, 2);
     match mode {
         // enumerated: one cut at (frame, offset) chosen by index
         0 | 1 => {
@@ -396,7 +398,7 @@ impl Check for C08 {
         rep.runs = 2;
         rep.sim_ns += refo.end_ns;
         rep.full_hash = rep.full_hash.rotate_left(13) ^ refo.full_hash();
-        rep.nontrivial = ["c2s_gated_segment", "c2s_frame_split", "write_partial_accept", "write_pending_delay", "write_pending_event", "write_spurious_pending", "read_spurious_pending"]
+        rep.nontrivial = ["c2s_gated_segment", "c2s_frame_split", "c2s_frames_coalesced_in_one_read", "write_partial_accept", "write_pending_delay", "write_pending_event", "write_spurious_pending", "read_spurious_pending"]
             .iter()
             .any(|k| var.faults.contains_key(*k));
         compare(sc, &refo, &var, &mut rep);
